@@ -51,3 +51,12 @@ CASES += [
     dict(id='c04-eq-lambda-explicit-copy', prop='C04', file='src/library/prog_args/handler.cpp', expect=None,
          old="         [&, full=full]( auto const& help_arg_key, bool)", new="         [this, full]( auto const& help_arg_key, bool)"),
 ]
+
+CASES += [
+    dict(id='c04-help-subgroup-cast-of-normal-argument', prop='C04', file=H, expect='R11',
+         old="      auto                       p_arg_hdl = mSubGroupArgs.findArg( key);\n\n      if (p_arg_hdl != nullptr)\n      {\n         static_cast<",
+         new="      auto                       p_arg_hdl = mArguments.findArg( key);\n\n      if (p_arg_hdl != nullptr)\n      {\n         static_cast<"),
+    dict(id='c04-eq-help-subgroup-two-step-lookup', prop='C04', file=H, expect=None,
+         old="      auto                       p_arg_hdl = mSubGroupArgs.findArg( key);\n\n      if (p_arg_hdl != nullptr)\n      {\n         static_cast<",
+         new="      detail::TypedArgBase*      p_arg_hdl = nullptr;\n      p_arg_hdl = mSubGroupArgs.findArg( key);\n\n      if (p_arg_hdl != nullptr)\n      {\n         static_cast<"),
+]
